@@ -949,6 +949,9 @@ func unparseQuery(q b6.Query) (string, bool) {
 			if qs[i], ok = unparseQuery(q[i]); !ok {
 				return "", false
 			}
+			if i < len(q)-1 && isCompositeQuery(q[i]) {
+				qs[i] = "[" + qs[i] + "]"
+			}
 		}
 		return strings.Join(qs, " & "), true
 	case b6.Union:
@@ -957,6 +960,9 @@ func unparseQuery(q b6.Query) (string, bool) {
 			var ok bool
 			if qs[i], ok = unparseQuery(q[i]); !ok {
 				return "", false
+			}
+			if i < len(q)-1 && isCompositeQuery(q[i]) {
+				qs[i] = "[" + qs[i] + "]"
 			}
 		}
 		return strings.Join(qs, " | "), true
@@ -970,6 +976,17 @@ func unparseQuery(q b6.Query) (string, bool) {
 		return unparseQuery(*q)
 	}
 	return "", false
+}
+
+// isCompositeQuery returns true if q needs to be grouped with brackets when
+// it's not the last operand of an and or an or, since those otherwise
+// associate to the right, without precedence.
+func isCompositeQuery(q b6.Query) bool {
+	switch q.(type) {
+	case b6.Intersection, *b6.Intersection, b6.Union, *b6.Union:
+		return true
+	}
+	return false
 }
 
 func UnparseExpression(e b6.Expression) (string, bool) {
